@@ -130,6 +130,37 @@ def ob_invariant(name, dim):
     return Verdict(DISCHARGED, backend="real HyperElasticState methods on Q(c_ij)(sqrt 2); exact differentiation", sub=n)
 
 
+
+
+def _small(c, d, tol=EPS * 4096):
+    """|coefficient| <= tol for every monomial in the NAMED symbols, the coefficients being elements of Q(radicals) evaluated with the radicals' values
+    (used where the imported code carries a float literal such as 2**-0.5 next to an exact sqrt(2))."""
+    d = d if isinstance(d, X) else c.const(d)
+    if d == 0:
+        return True
+    num, den = d.v.numer, d.v.denom
+    nv = c.nvars
+    # denominator must be a constant of Q(radicals)
+    dval = 0
+    for mon, cf in den.terms():
+        if any(mon[:nv]):
+            return False
+        t = float(Fraction(int(cf.numerator), int(cf.denominator)))
+        for j, e in enumerate(mon[nv:]):
+            if e:
+                t *= float(c.rad_wit[nv + j]) ** e
+        dval += t
+    if dval == 0:
+        return False
+    groups = {}
+    for mon, cf in num.terms():
+        t = float(Fraction(int(cf.numerator), int(cf.denominator)))
+        for j, e in enumerate(mon[nv:]):
+            if e:
+                t *= float(c.rad_wit[nv + j]) ** e
+        groups[mon[:nv]] = groups.get(mon[:nv], 0.0) + t
+    return sum(abs(v) for v in groups.values()) / abs(dval) <= float(tol)
+
 # ---------------------------------------------------------------- P: kinematics
 
 def ob_kin_De(dim, which):
@@ -220,7 +251,7 @@ def ob_kin_De(dim, which):
         d = got - want[r]
         d = d if isinstance(d, X) else c.const(d)
         n += 1
-        if not (d == 0) and not (d.coeff_abs_sum() <= EPS):
+        if not (d == 0) and not _small(c, d):
             raise Refuted(f"{what}: row {r} (strain component {pairs[r]}) differs: {d}", signature=f"kin:{which}:{dim}", replay=_sub("_replay_operator", "pointwise" if which == "De" else "kelvinvoigt", "TRI3" if dim == 2 else "TETRA4"))
     return Verdict(DISCHARGED, backend="real kinematic operators on Q(grad u, grad v)(sqrt 2); float literal 2**-1/2 read exactly (2^-40 slack)", sub=n)
 
@@ -475,7 +506,7 @@ def _poly_close(c, d):
     if d == 0:
         return True
     try:
-        return d.coeff_abs_sum() <= EPS * 4096
+        return _small(c, d)
     except Exception:
         return False
 
